@@ -36,9 +36,9 @@ example : (parseRows true [⟨0, .opener, false⟩, ⟨4, .leaf, false⟩, ⟨0,
 
 /-- …for a whole text: one node per line of `str.splitlines`, numbered in source order
     (`MethodLineIdGenerator` turns the line number into the id of that method line). -/
-theorem text_one_node_per_line (fl fi : Bool) (uod : List String) (text : List Char) :
-    (parseText fl fi uod text).map Row.idx = List.range (splitLines text).length := by
-  have := (one_node_per_line fi ((nodesOf fl uod text).map infoOf)).1
+theorem text_one_node_per_line (fl fe fi : Bool) (uod : List String) (text : List Char) :
+    (parseText fl fe fi uod text).map Row.idx = List.range (splitLines text).length := by
+  have := (one_node_per_line fi ((nodesOf fl fe uod text).map infoOf)).1
   simpa [parseText, nodesOf] using this
 
 /-- The lines of a text contain no line-boundary character (in particular no '\n', the one character the
@@ -118,27 +118,92 @@ theorem bad_indentation_flagged (ls : List LineInfo) (hw : WellClassified ls) (h
   simpa [Correct, Ctl.init] using hc
 
 /-- `_parse_line` (model) classifies as `bad_indentation_flagged` assumes, for every text. -/
-theorem text_wellClassified (fl : Bool) (uod : List String) (text : List Char) :
-    WellClassified ((nodesOf fl uod text).map infoOf) := by
+theorem text_wellClassified (fl fe : Bool) (uod : List String) (text : List Char) :
+    WellClassified ((nodesOf fl fe uod text).map infoOf) := by
   intro l hl hk
   simp only [nodesOf, List.map_map, List.mem_map, Function.comp_apply] at hl
   obtain ⟨cs, _, rfl⟩ := hl
   revert hk
-  unfold parseLine infoOf
+  unfold parseLineE infoOf
   cases h1 : strip cs with
   | nil => simp [blankNode]
   | cons c t =>
     by_cases hc : c = '#'
     · simp [hc, blankNode]
     · cases h3 : scanLine cs with
-      | none => simp [hc, blankNode]
+      | none => cases fe <;> simp [hc, blankNode]
       | some s => simp [hc]
 
-/-- …so for every text: if its instruction lines are not correctly indented, an instruction is flagged. -/
-theorem text_bad_indentation_flagged (fl : Bool) (uod : List String) (text : List Char)
-    (hc : ¬ Correct ((nodesOf fl uod text).map infoOf)) :
-    ∃ r ∈ parseText fl true uod text, r.info.kind ≠ .ws ∧ r.err = true :=
-  bad_indentation_flagged _ (text_wellClassified fl uod text) hc
+/-- …so for every text: if the nodes' columns are not correctly indented, an instruction is flagged. -/
+theorem text_bad_indentation_flagged (fl fe : Bool) (uod : List String) (text : List Char)
+    (hc : ¬ Correct ((nodesOf fl fe uod text).map infoOf)) :
+    ∃ r ∈ parseText fl fe true uod text, r.info.kind ≠ .ws ∧ r.err = true :=
+  bad_indentation_flagged _ (text_wellClassified fl fe uod text) hc
+
+/-! ### Judged from the TEXT
+
+Above, "indentation" is the column the parser gave the node.  The property speaks about the text: the
+indentation of a line is its leading white space (`srcIndent`), whether or not the rest of the line parses.
+`srcInfos` is what the discipline reads from the text.  The two coincide except for lines that do not match
+the instruction pattern (`    ?`, `    :x`): the code as it is puts those at column 0, so a well indented
+unparsable line leaves its block and the next well indented line is flagged and re-nested. -/
+
+/-- the statement on the text, for a line parser `fe` -/
+def TextLaw (fe : Bool) : Prop :=
+  ∀ (fl : Bool) (uod : List String) (text : List Char),
+    (Correct (srcInfos fl fe uod text) →
+      ∀ r ∈ parseText fl fe true uod text, r.info.kind ≠ .ws →
+        r.err = false ∧ r.parent = nearestShallower (srcInfos fl fe uod text) r.idx) ∧
+    (¬ Correct (srcInfos fl fe uod text) →
+      ∃ r ∈ parseText fl fe true uod text, r.info.kind ≠ .ws ∧ r.err = true)
+
+/-- both halves on the text, whenever the parser's columns are the text's indentations -/
+theorem text_law_of_columns (fl fe : Bool) (uod : List String) (text : List Char)
+    (h : fe = true ∨ AllScannable text) :
+    (Correct (srcInfos fl fe uod text) →
+      ∀ r ∈ parseText fl fe true uod text, r.info.kind ≠ .ws →
+        r.err = false ∧ r.parent = nearestShallower (srcInfos fl fe uod text) r.idx) ∧
+    (¬ Correct (srcInfos fl fe uod text) →
+      ∃ r ∈ parseText fl fe true uod text, r.info.kind ≠ .ws ∧ r.err = true) := by
+  have e := infos_eq_src fl fe uod text h
+  unfold parseText
+  rw [e]
+  constructor
+  · intro hc r hr hk
+    exact ⟨(structure_law _ hc r hr hk).1, (parent_is_nearest_shallower _ hc r hr hk).1⟩
+  · intro hc
+    have hw := text_wellClassified fl fe uod text
+    rw [e] at hw
+    exact bad_indentation_flagged _ hw hc
+
+/-- Full statement on the text — the code as it is (`fe = false`) -/
+def C17_full : Prop := TextLaw false
+
+/-- `    ?` inside a block: correctly indented text, the line leaves its block unflagged -/
+theorem C17_counterexample : ¬ C17_full := by
+  intro h
+  have h1 := (h true [] "Block: A\n    Mark: a\n    ?\n    Mark: b\n".toList).1 (by decide +kernel)
+    ⟨2, none, false, ⟨0, .leaf, false⟩⟩ (by decide +kernel) (by decide)
+  revert h1
+  decide +kernel
+
+/-- what holds for the code as it is: the law on every text all of whose lines are blank, comments or match
+    the instruction pattern -/
+theorem C17_partial (fl : Bool) (uod : List String) (text : List Char) (h : AllScannable text) :
+    (Correct (srcInfos fl false uod text) →
+      ∀ r ∈ parseText fl false true uod text, r.info.kind ≠ .ws →
+        r.err = false ∧ r.parent = nearestShallower (srcInfos fl false uod text) r.idx) ∧
+    (¬ Correct (srcInfos fl false uod text) →
+      ∃ r ∈ parseText fl false true uod text, r.info.kind ≠ .ws ∧ r.err = true) :=
+  text_law_of_columns fl false uod text (Or.inr h)
+
+/-- with fixes/C17-error-line-keeps-indentation.diff (`fe = true`) the full statement holds -/
+theorem text_law_repaired : TextLaw true :=
+  fun fl uod text => text_law_of_columns fl true uod text (Or.inl rfl)
+
+example : AllScannable "Block: A\n    Mark: a\n\n  # c\n    1.5 Mark: b\n".toList := by decide +kernel
+example : (parseText true true true [] "Block: A\n    Mark: a\n    ?\n    Mark: b\n".toList).map Row.parent
+    = [none, some 0, some 0, some 0] := by decide +kernel
 
 /-- Together: an instruction is flagged exactly when the text is not correctly indented. -/
 theorem flagged_iff_incorrect (ls : List LineInfo) (hw : WellClassified ls) :
